@@ -286,15 +286,19 @@ class C19(Check):
                 tl = _th.local()
 
                 def where(kind):
-                    """the position this callback belongs to: a shared object is visited once per position, in order"""
+                    """the position this callback belongs to: a shared object is visited once per position, in order; a
+                    visit is checkpoint, then processor, then handler (each at most once), so a callback of a kind that
+                    does not come later than the previous one of this thread opens the next visit"""
                     if len(positions) == 1:
                         return i0
-                    if kind == first_kind:
+                    if getattr(tl, "run", None) is not visits.get("run") or kind <= getattr(tl, "last", 9):
                         with vlock:
                             v = visits.get(i0, 0)
                             visits[i0] = v + 1
                         tl.pos = positions[v] if v < len(positions) else -9
-                    return getattr(tl, "pos", -9)
+                        tl.run = visits.get("run")
+                    tl.last = kind
+                    return tl.pos
 
                 def checkpoint(x):
                     i = where(0)
@@ -372,6 +376,7 @@ class C19(Check):
             x0 = {"same": case["x"], "gates-flipped": case["x"], "equal-distinct": float(case["x"]),
                   "other-input": case["x"] + 1}[warm]
             visits.clear()
+            visits["run"] = object()
             r0 = entry(x0)
             if warm == "same":
                 earlier.append(self._summary(r0, sorted(log) if parallel else list(log), parallel))
@@ -384,6 +389,7 @@ class C19(Check):
         hooked["cascade"].clear()
         phase["warm"] = False
         visits.clear()
+        visits["run"] = object()
         res = entry(case["x"])
         if case.get("hooks"):
             done = sorted(r.stage_name for r in res.stage_results if r.status.value == "completed" and r.error is None)
@@ -500,8 +506,13 @@ class C19(Check):
         if trace.get("mapk"):
             return None if trace["ok"] else Violation("C19/mapk-preset", "MAPK preset does not complete with the composed output and clamped amplification 100")
         stages, log = case["stages"], trace["log"]
+        # callbacks that cannot be attributed to a position (more visits than the stage has positions) are left to the
+        # correspondence with the model
+        log = [e for e in log if 0 <= e[0] < len(stages)]
+        if not trace.get("parallel"):
+            trace = {**trace, "sres": [t for t in trace["sres"] if 0 <= t[0] < len(stages)]}
         if trace.get("parallel"):
-            return self._monitor_parallel(case, trace)
+            return self._monitor_parallel(case, {**trace, "log": log})
         for k, e in enumerate(trace.get("earlier", [])):
             if e != trace["last"]:
                 return Violation("C19/state-carried-between-runs",
